@@ -166,6 +166,7 @@ func (c *ctxT) runVerify(cs Case) string {
 	c.rep.Count("verify:dev:" + cs.Dev)
 	c.rep.Count(fmt.Sprintf("verify:accepted:%v", ok))
 	po := calcOrder(sc.ch, sc.p)
+	c.rep.Count("verify:parent-order:" + po.class())
 	c.rep.Nontrivial(fmt.Sprintf("verify:%s:%v:%s:gp%d", cs.Dev, ok, po.class(), e.GPKind))
 	if ok {
 		// monitors on accepted pairs: entropy strictly increases along zone-order links, recorded parent entropy = accumulated entropy
